@@ -446,3 +446,80 @@ def check_C17(tier):
     rep.assumptions = ['crash = process death: the state on disk is exactly the effects performed so far (no torn or reordered writes; durability / fsync not claimed)',
                        'effects are taken from strace -f of a real interpreter running WriteToPaths().set(); unreadable = PermissionError injected at pathlib level (the sandbox runs as root)']
     return rep.finish()
+
+
+@reg
+def check_C13(tier):
+    rep = Report('C13', tier)
+    env = Env()
+    conf = extract_conf(env)
+    from common import tlc
+    # (a) the design: a cache keyed on the full normalised call is transparent over all histories; the keyword-name key is not
+    r = tlc('Cache', 'Cache_full.cfg', workers=4, timeout=300)
+    rep.add_tlc(r, 'Cache.tla, KeyMode = full: Transparent, KeyOwner, Bounded over all histories of 5 calls, capacity 2')
+    if r.violation:
+        rep.fail('spec-invariant', 'TLC: ' + K._tlc_error(r.out), record=dict(tlc_tail=r.out[-2000:]))
+    rn = tlc('Cache', 'Cache_kwnames.cfg', workers=4, timeout=300)
+    rep.add_tlc(rn, 'negative model (KeyMode = kwnames): TLC must refute KeyOwner')
+    rep.guard(rn.violation or 'KeyOwner' in rn.out, 'the negative cache model (keyword names as key) was not refuted')
+    # (b) the implementation: one pristine interpreter per hash seed, a forked child per history
+    raw = json.load(open(conf))
+    uni = _universes(env, conf)
+    seeds = list(range(8))
+    n_pairs, n_seqs, max_len = (60, 12, 30) if tier == 'quick' else (1200, 120, 50)
+    envs = store_envs(len(seeds), env)
+    alias = raw['alias'][0]['name'] if raw['alias'] else '*'
+    import concurrent.futures as cf
+
+    def one(k):
+        e = envs[k]
+        job = os.path.join(e.work, 'job.json')
+        json.dump(dict(univ='asset:complete', seed=SEED * 100 + k, n_pairs=n_pairs, n_seqs=n_seqs, max_len=max_len, alias='maya',
+                       overlay_key='state', overlay_val='w', missing_ext='psd'), open(job, 'w'))
+        extra = {'SPIL_UNIVERSES': uni, 'SPIL_CONF_JSON': conf}
+        e.run('run_cache.py', ['--setup', job], hashseed=seeds[k], extra=extra)
+        e.run('run_cache.py', [job, os.path.join(e.work, 'cache.trace')], hashseed=seeds[k], extra=extra, timeout=7200)
+        return os.path.join(e.work, 'cache.trace')
+    with cf.ThreadPoolExecutor(8) as ex:
+        traces = list(ex.map(one, range(len(seeds))))
+    trace = os.path.join(env.work, 'cache.trace.ndjson')
+    with open(trace, 'w') as out:
+        for t in traces:
+            with open(t) as f:
+                for line in f:
+                    out.write(line)
+    v = validate(trace, conf, module='CacheTrace', chunk=30000, split_on='"creset"')
+    rep.add_validation(v, 'cache decisions and answers of every history, 8 hash seeds')
+    recs = trace_lines(trace, [i for i, _ in v['fails']])
+    for i, clauses in v['fails']:
+        rec = recs[i]
+        c = rec['call']
+        what = (c.get('spelled') or ('%s %s %s' % (c.get('f'), c.get('args'), c.get('kwargs'))))[:200]
+        rep.fail(c.get('op', '?'), '%s fails %s' % (what, ','.join(clauses)), record=K._slim(rec), clauses=clauses)
+    with open(trace) as f:
+        for n, line in enumerate(f):
+            if '"cret"' in line[:40] and len(rep.samples) < 4:
+                rep.sample(json.loads(line))
+    for t in ('cache:hit', 'cache:miss', 'cache:evict', 'cache:store'):
+        rep.guard(t in rep.cover, '%s never exercised' % t)
+    rep.guard(len([t for t in rep.cover if t.startswith('ret:')]) >= 12, 'fewer than 12 entry points exercised')
+    rep.assumptions = ['ground truth = the answer of a pristine interpreter state (forked right after `import spil`) that makes only that call, per hash seed; 8 seeds (PYTHONHASHSEED 0..7)',
+                       'digests preserve list order: an order that depends on the history or the hash seed is a different answer',
+                       'cross-seed comparison: the same call must give the same digest under all 8 seeds (checked by the driver on the fresh digests)']
+    # cross-seed: identical fresh digests for the same normalised call and epoch
+    seen = {}
+    with open(trace) as f:
+        for line in f:
+            if '"cret"' not in line[:40]:
+                continue
+            rec = json.loads(line)
+            k = (rec['call']['norm'], rec['call']['epoch'])
+            d = rec['obs']['fresh_digest']
+            if rec['call']['fn'] == 'simple_typing':
+                continue      # internal helper returning an unordered collection (its only caller sorts); not one of the property's calls
+            if k in seen and seen[k][0] != d:
+                rep.fail('hashseed', '%s answers differently in fresh processes with different hash seeds: %s vs %s'
+                         % (rec['call']['spelled'][:160], seen[k][1][:120], rec['obs']['fresh_answer'][:120]), record=K._slim(rec), clauses=['same_under_every_hash_seed'])
+                seen[k] = (d, rec['obs']['fresh_answer'])
+            seen.setdefault(k, (d, rec['obs']['fresh_answer']))
+    return rep.finish()
